@@ -99,6 +99,12 @@ func genC12Days(out *caseWriter, seed uint64, n int, args []string) error {
 	for i := 0; i < n; i++ {
 		r := newRng(seed, "C12days", i)
 		coms := allComs[:r.rangeInt(2, 4)]
+		if r.chance(15) {
+			// names of different lengths whose concatenations coincide (A+BC = AB+C, A+AB = AA+B): seeded change
+			// C12g-same-day-quotes-keyed-by-joined-names identified a pair by its two names written one after the other
+			// and dropped the "superseded" quote of ANOTHER pair of the day
+			coms = [][]string{{"A", "AB", "BC", "C"}, {"A", "AA", "AB", "B"}, {"C", "BC", "AB", "A", "B"}}[r.intn(3)]
+		}
 		v := pick(r, coms)
 		d0 := time.Date(2020, 1, 1, 0, 0, 0, 0, time.UTC).AddDate(0, 0, r.intn(300))
 		j := Journal{{Kind: 'O', Date: dateStr(d0), Acc: "Assets:Bank"}, {Kind: 'O', Date: dateStr(d0), Acc: "Equity:Opening"}}
